@@ -221,3 +221,29 @@ Proof.
   assert (In w (waiters s)) as Hw by (apply (inv_wait s HI); rewrite P; reflexivity).
   destruct (wedged_forever sched s h HI W) as (_ & K). destruct (K w Hw) as (_ & E). rewrite E. exact P.
 Qed.
+
+(* ---- what the stalled transport does NOT block: once close() has done its drain (nobody is between the flag and
+   the drain), the tables hold late entries only and every stream handle's queue is closed -- whether or not the
+   close() that drained is now stuck on the writer mutex behind the stalled write ---- *)
+Definition drained (s : state) : Prop := forall x, is_pc1 (pcof s x) = false.
+
+Theorem released_after_drain sched progs buf pend :
+  let s := run (init progs buf pend) sched in
+  closed s = true -> drained s ->
+  (forall sid u, In (sid, u) (table s) -> late_entry s sid u) /\
+  (forall sid u, In (sid, u) (rtable s) -> late_entry_r s sid u) /\
+  (forall u sid, t_sid (tasks s u) = Some sid -> t_rclosed (tasks s u) = true \/ in_window_r (pcof s u) sid).
+Proof.
+  intros s C Dn.
+  assert (Inv s /\ half_ok s /\ drained_ok s /\ reader_ok s) as (HI & Hh & D & R).
+  { unfold s. clear s C Dn.
+    apply (run_invariant (fun s => Inv s /\ half_ok s /\ drained_ok s /\ reader_ok s)).
+    - intros s t s' HI (_ & Hh & D & R) H.
+      split; [eapply step_inv; eauto | split; [eapply step_half_ok; eauto | split; [eapply step_drained_ok; eauto | eapply step_reader_ok; eauto]]].
+    - apply inv_init.
+    - split; [apply inv_init | split; [apply half_ok_init | split; [apply drained_ok_init | apply reader_ok_init]]]. }
+  destruct (D C) as [[x A]|[T1 T2]]; [rewrite Dn in A; discriminate|].
+  split; [exact T1 | split; [exact T2|]].
+  intros u sid H. destruct (R u sid H) as [A|A]; [|left; exact A].
+  destruct (T2 sid u A) as [W|[Sn _]]; [right; exact W | congruence].
+Qed.
